@@ -878,4 +878,47 @@ theorem C12_chars_dup_framecode (o : Opts) (cs : List Chunk) (preB postB : List 
   exact allPacked_denoteElems o post seen2 fseen2 _ _ hpost
     (allPacked_denoteElems o pre [] [] [] [] H.wfRun (by intro l hl; cases hl))
 
+
+/-! ### non-vacuity: the hypotheses are satisfiable (a text with a comment and varying whitespace) -/
+
+namespace C12Chars
+def exCs : List Chunk :=
+  [.tk (.data (a!"a")), .ws [.eol], .tk (.name (a!"_x")), .ws [.blank 32, .comment (a!" no value"), .eol],
+   .tk (.name (a!"_y")), .ws [.blank 32, .blank 32], .tk (.val .squote (a!"v w")), .ws [.eol]]
+
+macro "wok" : tactic => `(tactic|
+  (refine ⟨List.all_eq_true.mp (by decide), ?_⟩
+   first
+   | exact Or.inl rfl
+   | (right; intro b rest h; cases h)))
+
+theorem exOk : okC .cif2 .end_ [] exCs := by
+  simp only [exCs, okC, List.nil_append]
+  refine ⟨?_, ?_, ?_, ?_, ?_, ?_, ?_, ?_, ?_, ?_, ?_, ?_, ?_, ?_, ?_, ?_, ?_⟩
+  all_goals first | decide | (intro h; cases h) | wok
+
+
+theorem exHost : ItemHost C12.opts2 exCs [] [] (a!"a") [] [.item (a!"_y") (.str (a!"v w") .squote)] [(.name, a!"_x")] where
+  store := rfl
+  utf := rfl
+  ok := exOk
+  fit := by decide
+  first := ⟨100, _, rfl, by decide, by decide⟩
+  mfd := by decide
+  wfPreB := rfl
+  wfBc := by decide
+  fresh := by intro b hb; cases hb
+  wfPostB := rfl
+  hToks := by decide
+  wfRun := rfl
+
+/-- non-vacuity: a text with a comment and varying whitespace around a name without value -/
+theorem C12_chars_missing_value_instance :
+    OneReport C12.opts2 exCs CIF_MISSING_VALUE
+      [plainBlock (a!"a") [.item (a!"_x") .unk, .item (a!"_y") (.str (a!"v w") .squote)]] :=
+  C12_chars_missing_value C12.opts2 exCs [] [] (a!"a") [] _ (a!"_x") [a!"_x"] exHost (by decide) (by simp [normNames, denoteItems])
+    (by decide) (by intro k hk; simpa [normNames, denoteItems, putScalar, C12.opts2, C12.lower] using hk)
+
+end C12Chars
+
 end CifModel.Props
